@@ -306,6 +306,15 @@ func (c *checker) checkPooled(name string, enc pool.Encoder, dec pool.Decoder, s
 		return
 	}
 	back := p.AcquireMessage(context.Background())
+	// a recycled message: its previous life was another exchange (token, options and a payload of its own); nothing of
+	// that may show in what is decoded next
+	prev := ref.Msg{Type: 1, Code: 0x45, MID: 7, Token: []byte{0xee, 0xee, 0xee}, Opts: []ref.Opt{{ID: 4, Val: []byte{9, 9}}, {ID: 12, Val: nil}}, Payload: []byte("payload of the previous exchange")}
+	if stream {
+		_, _ = back.UnmarshalWithDecoder(dec, ref.EncodeTCP(prev))
+	} else {
+		_, _ = back.UnmarshalWithDecoder(dec, ref.EncodeUDP(prev))
+	}
+	back.Reset()
 	n, err := back.UnmarshalWithDecoder(dec, want)
 	if err != nil || n != len(want) {
 		c.viol("C01/pool-"+name+"/unmarshal-result", fmt.Sprintf("(%d,%v) want %d", n, err, len(want)), d)
